@@ -199,3 +199,58 @@ func checkHuge(c hugeCase) pbt.Result {
 	}
 	return r
 }
+
+// ---- publisher sufficiency at the top of the range
+
+// When a log grows from 2^k-1 to 2^k records every level of the tree changes, so the tiles a publisher is told
+// to publish for that one step are, on their own, sufficient to read the new last record and the new root
+// subtree (everything else the reader needs lies on the right edge, which is entirely new).
+type hugePubCase struct {
+	H, K int
+}
+
+func genHugePub(t *rapid.T) hugePubCase {
+	return hugePubCase{H: rapid.IntRange(1, 12).Draw(t, "h"), K: rapid.IntRange(1, 61).Draw(t, "k")} // (a tile of height 12 is 128 KiB; taller tiles are a memory matter for the harness, not a different code path)
+}
+
+type publishedUniform struct {
+	uniformReader
+	pub map[tlog.Tile]bool
+}
+
+func (r *publishedUniform) ReadTiles(tiles []tlog.Tile) ([][]byte, error) {
+	for _, t := range tiles {
+		if !r.pub[t] {
+			return nil, fmt.Errorf("tile %v was never published", t)
+		}
+	}
+	return r.uniformReader.ReadTiles(tiles)
+}
+
+func checkHugePub(c hugePubCase) pbt.Result {
+	r := pbt.Result{}
+	if c.H < 1 || c.H > 12 || c.K < 1 || c.K > 61 {
+		r.Skip = true
+		return r
+	}
+	size := int64(1) << uint(c.K)
+	u := merkleref.NewUniform([]byte("the same record everywhere\n"))
+	pub := map[tlog.Tile]bool{}
+	for _, t := range tlog.NewTiles(c.H, size-1, size) {
+		pub[t] = true
+	}
+	r.NonTrivial = c.K >= 8
+	r.Classes = []string{fmt.Sprintf("tile levels=%d", c.K/c.H+1)}
+	rd := &publishedUniform{uniformReader: uniformReader{h: c.H, size: size, u: u, fault: -1}, pub: pub}
+	tree := tlog.Tree{N: size, Hash: tlog.Hash(u.MTHSize(size))}
+	idx := []int64{tlog.StoredHashIndex(0, size-1)}
+	got, err := tlog.TileHashReader(tree, rd).ReadHashes(idx)
+	if err != nil {
+		r.Fail = pbt.Failf("publish-insufficient-huge", "log grown from 2^%d-1 to 2^%d records, tile height %d: reading the new last record through exactly the tiles NewTiles lists for that step fails: %v", c.K, c.K, c.H, err)
+		return r
+	}
+	if len(got) != 1 || merkleref.Hash(got[0]) != u.MTHSize(1) {
+		r.Fail = pbt.Failf("wrong-hash-huge", "log of 2^%d records, tile height %d: wrong hash for the last record", c.K, c.H)
+	}
+	return r
+}
